@@ -505,7 +505,9 @@ theorem cfOf_collEnv (s : State) (op : CF.Op) (hop : op = .migrateUpdatable ∨ 
     obtain ⟨m, c⟩ := mc
     cases hq : CF.step (cfOf s) op with
     | error e =>
-      have : collEnv s op = .error e := by simp [collEnv, hmc, hq]
+      have : collEnv s op = .error e := by
+        simp only [collEnv, hmc]
+        rw [hq]
       rw [this, CF.step'_err hq]
     | ok q =>
       have hq' := hq
@@ -514,9 +516,11 @@ theorem cfOf_collEnv (s : State) (op : CF.Op) (hop : op = .migrateUpdatable ∨ 
           obtain ⟨_, c', _, _, rfl⟩ := CF.onColl_ok hq' <;> exact ⟨c', rfl⟩
       obtain ⟨c', rfl⟩ := hshape
       have : collEnv s op = .ok { s with bank := s.bank, mc := some (m, c') } := by
-        simp [collEnv, hmc, hq, cfOf]
+        simp only [collEnv, hmc]
+        rw [hq]
+        rfl
       rw [this, CF.step'_ok hq]
-      simp [cfOf]
+      rfl
 
 theorem runSub_some {b : Sg721.Block} {bank bank' : MintPay.Bank} {minter : Addr} {c c' : CF.Coll} {mm : CF.ExecMsg}
     (h : runSub b bank minter c (some mm) = .ok (bank', c')) :
@@ -546,7 +550,7 @@ theorem sys_now {S r : Sys.State} {o : Sys.Op} (h : Sys.step S o = .ok r) :
       · cases hc; exact ⟨t, rfl, rfl⟩
     | _ =>
       right
-      refine ⟨by intro t ht; cases ht, ?_⟩
+      refine ⟨(by intro t ht; cases ht), ?_⟩
       rcases h5 with ⟨t, ht⟩ | h5
       · cases ht
       · exact h5
@@ -554,18 +558,18 @@ theorem sys_now {S r : Sys.State} {o : Sys.Op} (h : Sys.step S o = .ok r) :
     right
     obtain ⟨cst, hc, rfl⟩ := Sys.step_mint_ok h
     obtain ⟨_, _, _, _, h5⟩ := VF.step_frame hc
-    refine ⟨by intro t ht; cases ht, ?_⟩
+    refine ⟨(by intro t ht; cases ht), ?_⟩
     rcases h5 with ⟨t, ht⟩ | h5
     · simp [Sys.mintOp] at ht
     · exact h5
   | wlInst v sender funds self m =>
     right
     obtain ⟨_, q, w, _, _, _, rfl⟩ := Sys.step_wlInst_ok h
-    exact ⟨by intro t ht; cases ht, rfl⟩
+    exact ⟨(by intro t ht; cases ht), rfl⟩
   | wlExec k sender funds m =>
     right
     obtain ⟨w, q, w', _, _, _, _, rfl⟩ := Sys.step_wlExec_ok h
-    exact ⟨by intro t ht; cases ht, rfl⟩
+    exact ⟨(by intro t ht; cases ht), rfl⟩
 
 theorem subOf_setTime (t : Nat) : subOf (.minter (.setTime t)) = .none := rfl
 
@@ -593,7 +597,7 @@ theorem cf_sysStep {s s' : State} {o : Sys.Op} (hp : plainOp o = true) (h : sysS
   · obtain ⟨vm', hm', _, _, _, _, hfop, htt⟩ := sys_effect hp (sysOf_minter_some hmc) hr
     obtain ⟨_, _, hb⟩ := sub_exact hfop htt hmsg hrun
     subst hb
-    have hcf : cfOf (setSys s r bank (some c')) = ⟨⟨s.height, r.now⟩, bank, some c'⟩ := by
+    have hcf : cfOf (setSys s r r.bank (some c')) = ⟨⟨s.height, r.now⟩, r.bank, some c'⟩ := by
       simp only [cfOf, State.block, setSys_mc_some, hm']
       rfl
     rw [hcf]
@@ -625,8 +629,8 @@ theorem cf_sysStep {s s' : State} {o : Sys.Op} (hp : plainOp o = true) (h : sysS
         · cases hx
       | some mm =>
         have hex := runSub_some hrun
-        have hst : CF.step { cfOf s with bank := (setSys s r bank (some c')).bank } (.exec m.addr [] mm) =
-            .ok ⟨s.block, bank, some c'⟩ := by
+        have hst : CF.step { cfOf s with bank := (setSys s r r.bank (some c')).bank } (.exec m.addr [] mm) =
+            .ok ⟨s.block, r.bank, some c'⟩ := by
           simp only [CF.step, cfOf, hmc, Option.map_some]
           exact hex
         rw [cf_run_one, CF.step'_ok hst]
@@ -699,13 +703,17 @@ theorem cf_step (s : State) (op : Op) :
         · cases ht
         · exact hn
       simp only [createCfOps, hr, hvm, cf_run_one]
-      have hst : CF.step { cfOf s with bank := (setSys s r r.bank _).bank } (.instantiate (cfKind vm.tt.kind) vm.addr [] ci.name ci.symbol
-          (instMsg vm.addr msg.creator vm.tt.trading ci) vm.sg721) = .ok _ := by
+      generalize hc0 : ({ core := core, self := vm.sg721, name := ci.name, symbol := ci.symbol, legacy := none } : CF.Coll) = c0 at hq ⊢
+      have hst : CF.step { cfOf s with bank := r.bank } (.instantiate (cfKind vm.tt.kind) vm.addr [] ci.name ci.symbol
+          (instMsg vm.addr msg.creator vm.tt.trading ci) vm.sg721) = .ok ⟨s.block, r.bank, some c0⟩ := by
         simp only [CF.step, cfOf, hmc, Option.map_none]
         exact hq
-      rw [CF.step'_ok hst]
-      simp only [cfOf, State.block, setSys_mc_some, hvm, Option.map_some, hn]
-      rfl
+      have hb : (setSys s r r.bank (some c0)).bank = r.bank := rfl
+      show cfOf (setSys s r r.bank (some c0)) = CF.step' { cfOf s with bank := (setSys s r r.bank (some c0)).bank } _
+      rw [hb, CF.step'_ok hst]
+      simp only [cfOf, State.block, setSys_mc_some, hvm, Option.map_some]
+      show (⟨⟨s.height, r.now⟩, r.bank, _⟩ : CF.State) = _
+      rw [hn]
   | block hh t =>
     simp only [cfOps, cfBank, cfOf_bank_self]
     by_cases ht : t < s.now
